@@ -68,10 +68,12 @@ fn parse_res5(r: &str) -> (usize, Vec<usize>, i64, u64, bool) {
     (n, w, fail, ps, panic)
 }
 
-struct FailingReader { data: Vec<u8>, pos: usize, fail: i64, sizes: Vec<usize>, k: usize, panic: bool }
+struct FailingReader { data: Vec<u8>, pos: usize, fail: i64, sizes: Vec<usize>, k: usize, panic: bool, once: bool, failed: bool }
 impl Read for FailingReader {
     fn read(&mut self, out: &mut [u8]) -> std::io::Result<usize> {
-        if self.fail >= 0 && self.pos as i64 >= self.fail { return Err(fail_now(self.panic)); }
+        // "once": the source reports its error a single time and end-of-file afterwards (a reset socket, a dead pipe)
+        if self.failed && self.once { return Ok(0); }
+        if self.fail >= 0 && self.pos as i64 >= self.fail { self.failed = true; return Err(fail_now(self.panic)); }
         let lim = if self.fail >= 0 { (self.fail as usize).min(self.data.len()) } else { self.data.len() };
         let want = self.sizes[self.k % self.sizes.len()].max(1);
         self.k += 1;
@@ -103,7 +105,7 @@ pub fn router_for(kind: &str, opts: StreamOpts) -> Router {
                 }
             })
         }, opts),
-        "reader" => r.with_reader_stream(|res: &str| { let (n, w, fail, _, panic) = parse_res5(res); Some(FailingReader { data: produced(n), pos: 0, fail, sizes: w, k: 0, panic }) }, opts),
+        "reader" => r.with_reader_stream(|res: &str| { let (n, w, fail, _, panic) = parse_res5(res); Some(FailingReader { data: produced(n), pos: 0, fail, sizes: w, k: 0, panic, once: res.contains("once=1"), failed: false }) }, opts),
         // serde value: a byte vector (BEVE-encoded by the producer)
         "value" => r.with_value_stream(|res: &str| { let (n, ..) = parse_res(res); Some(produced(n).into_iter().map(|b| b as u16).collect::<Vec<u16>>()) }, opts),
         "typed" => r.with_typed_value_stream(|res: &str| { let (n, ..) = parse_res(res); Some((0..n).map(|i| i as f64 * 0.5).collect::<Vec<f64>>()) }, opts),
@@ -311,8 +313,8 @@ pub fn c09(a: &Args) -> i32 {
                         }
                         // a failing reader
                         if kind == "reader" {
-                            for (f, pn) in [(7, 0), (7, 1), (0, 1), (0, 0)] {
-                                let mut e = raw_pull(&c, &format!("n=20,w=3,fail={f},ps=0,panic={pn}"), 0, None);
+                            for (f, pn, once) in [(7, 0, 0), (7, 1, 0), (0, 1, 0), (0, 0, 0), (7, 0, 1), (5, 0, 1), (1, 0, 1), (13, 0, 1)] {
+                                let mut e = raw_pull(&c, &format!("n=20,w=3,fail={f},ps=0,panic={pn},once={once}"), 0, None);
                                 finish_raw(&mut e, kind, 20, f, compu, chunk, depth, &produced(20), 0, 0);
                                 e["panic"] = json!(pn == 1);
                                 out.push(&e); n_pulls += 1;
@@ -474,6 +476,7 @@ pub fn c10(a: &Args) -> i32 {
             }
             None => (vec![], vec![]),
         };
+        let rsrv = start("reader", opts, &rt);
         let exe = std::env::current_exe().unwrap();
         let mut run = |scenario: &str, fault: Value, pre_exists: bool, puller: &str, addr: std::net::SocketAddr, resource: &str, out: &mut util::NdJson| {
             case_id += 1;
@@ -528,6 +531,10 @@ pub fn c10(a: &Args) -> i32 {
                 for f in fails { run("producer_failure", json!(f), pre, puller, srv.addr, &format!("n={n},w=7.3,fail={f},ps=0"), &mut out); cases += 1; }
                 // connection cut after the k-th response (open is response 1)
                 for k in 0..=(n / chunk + 2) { let p = proxy(srv.addr, k); run("connection_cut", json!(k), pre, puller, p, &format!("n={n},w=7.3,fail=-1,ps=0"), &mut out); cases += 1; }
+            }
+            // a byte-source producer whose read fails once mid-block and then reports end-of-file
+            for puller in ["pull_to_file", "pull_to_file_async"] {
+                for f in [1usize, 7, 17, 33, 49] { run("producer_failure", json!(format!("reader-once@{f}")), pre, puller, rsrv.addr, &format!("n={n},w=5,fail={f},ps=0,once=1"), &mut out); cases += 1; }
             }
             if let Some(b) = &bsrv {
                 let res = format!("n={n},w=1,fail=-1,ps=0");
